@@ -722,6 +722,23 @@ def check_span_contiguity(ctx, fi, rule='R-ARITH/span-contiguity'):
             return distinct_sorted(t[2][0])
         return False
 
+    def merely_sorted(t):
+        """in order, repeats possible: sort(y), sorted(y), y[argsort(y)]"""
+        if not (isinstance(t, tuple) and t):
+            return False
+        if t[0] == 'call' and t[2]:
+            nm = T.call_name(t)
+            if nm in ('sorted', 'sort'):
+                return True
+            if nm in ('array', 'asarray', 'list', 'tuple', 'copy'):
+                return merely_sorted(t[2][0])
+            return False
+        if t[0] == 'sub' and isinstance(t[2], tuple) and t[2] \
+                and t[2][0] == 'call' and T.call_name(t[2]) == 'argsort' \
+                and t[2][2] and strip(t[2][2][0]) == strip(t[1]):
+            return True
+        return False
+
     def atoms(t):
         if not (isinstance(t, tuple) and t):
             return None
@@ -798,13 +815,21 @@ def check_span_contiguity(ctx, fi, rule='R-ARITH/span-contiguity'):
                         from ..core.loader import parent as _parent
                         while isinstance(_parent(par), ast.BoolOp):
                             par = _parent(par)
-                        steps = any(
-                            isinstance(k, ast.Call)
-                            and (k.func.attr if isinstance(
-                                k.func, ast.Attribute) else getattr(
-                                    k.func, 'id', '')) in ('diff',
-                                                           'ediff1d')
-                            for k in ast.walk(par))
+                        def _names(fn_names):
+                            return any(
+                                isinstance(k, ast.Call)
+                                and (k.func.attr if isinstance(
+                                    k.func, ast.Attribute) else getattr(
+                                        k.func, 'id', '')) in fn_names
+                                for k in ast.walk(par))
+                        steps = _names(('diff', 'ediff1d'))
+                        # in order by construction, and the same test
+                        # counts its distinct values
+                        if not steps and all(
+                                merely_sorted(r) or distinct_sorted(r)
+                                for r in raw.get(x, [])) \
+                                and _names(('unique',)):
+                            steps = True
                         if not steps:
                             ctx.ob(rule, f'{fi.qual}:span#{n - 1}',
                                    fi.loc(c), False,
@@ -823,4 +848,96 @@ def check_span_contiguity(ctx, fi, rule='R-ARITH/span-contiguity'):
                            'first == count - 1: a list with one index '
                            'missing (or one too many) passes for a '
                            'contiguous block')
+    return n
+
+
+def check_alias_edited_in_place(ctx, fi, rule='R-ALIAS/edited-through-alias'):
+    """`a = b` binds a second name to the same array.  Storing into `a[...]`
+    (or `a[...] op= v`) afterwards changes what `b` denotes as well; if `b`
+    is read later for its own sake, it no longer holds what it was computed
+    to hold.  (`denom = q1; denom[denom <= 0] = 1.0; return q1, d / denom`
+    returns the patched denominator as q1.)  Judged where both names keep
+    the bindings of the `a = b` statement up to the store and the later
+    read."""
+    from ..core.cfg import cfg_of
+    from ..core.defuse import rd_of
+    cfg = cfg_of(fi)
+    rd = rd_of(fi)
+    n = 0
+
+    def base(e):
+        while isinstance(e, ast.Subscript):
+            e = e.value
+        return e.id if isinstance(e, ast.Name) else None
+
+    aliases = []
+    for d in rd.defs:
+        if d.kind == 'assign' and not d.path and isinstance(
+                d.value, ast.Name) and d.node in rd.live \
+                and d.value.id != d.name:
+            src = rd.reaching(d.value.id, d.node)
+            # only data: a name bound to an array / list / dict value, not
+            # to None / a number / a string constant
+            if not src or any(isinstance(getattr(s, 'value', None),
+                                         ast.Constant) for s in src):
+                continue
+            aliases.append((d, {s.id for s in src}))
+    for d, src_ids in aliases:
+        a, b = d.name, d.value.id
+        for node in cfg.nodes:
+            if node.id not in rd.live or node.kind != 'stmt' \
+                    or node.ast is None:
+                continue
+            st = node.ast
+            tgt = None
+            if isinstance(st, ast.Assign) and isinstance(
+                    st.targets[0], ast.Subscript):
+                tgt = st.targets[0]
+            elif isinstance(st, ast.AugAssign) and isinstance(
+                    st.target, ast.Subscript):
+                tgt = st.target
+            if tgt is None:
+                continue
+            edited = base(tgt)
+            if edited not in (a, b):
+                continue
+            other = b if edited == a else a
+            # both names still as bound at the alias statement
+            if {x.id for x in rd.reaching(a, node.id)} != {d.id}:
+                continue
+            if {x.id for x in rd.reaching(b, node.id)} != src_ids:
+                continue
+            # a store of the other name's own data into itself is no edit
+            # `a[i] = b[i]`
+            # is the other name read afterwards, still bound as before?
+            later = None
+            for m in cfg.reachable(node.id):
+                mn = cfg.nodes[m] if isinstance(m, int) else m
+                if mn.id == node.id or mn.id not in rd.live:
+                    continue
+                want = src_ids if other == b else {d.id}
+                if {x.id for x in rd.reaching(other, mn.id)} != want:
+                    continue
+                for root in mn.exprs:
+                    if root is None:
+                        continue
+                    for x in ast.walk(root):
+                        if isinstance(x, ast.Name) and x.id == other \
+                                and isinstance(x.ctx, ast.Load):
+                            later = mn
+                            break
+                    if later:
+                        break
+                if later:
+                    break
+            n += 1
+            ok = later is None
+            ctx.touch(fi)
+            ctx.ob(rule, f'{fi.qual}:{a}={b}:{edited}', fi.loc(st), ok,
+                   'the other name is not read after the store' if ok else
+                   f'`{unparse(st)[:50]}` stores into `{edited}`, which is '
+                   f'the same object as `{other}` since `{a} = {b}` '
+                   f'(line {d.value.lineno}); `{other}` is read again at '
+                   f'line {later.lineno} and no longer holds what it was '
+                   'computed to hold')
     return n
